@@ -37,9 +37,15 @@ fn parse_header(header: &str) -> Result<Header, ParseError> {
         .splitn(PARTS, |c| c == SEPARATOR || c == CARRIAGE_RETURN)
         .peekable();
 
+    // The header ends right after the byte that follows the first `\r`: once that byte is present
+    // no further input can change the result, so nothing may be reported as incomplete any more.
+    let terminated = header
+        .find(CARRIAGE_RETURN)
+        .map_or(false, |index| index + 1 < header.len());
+
     let prefix = iterator.next().ok_or(ParseError::MissingPrefix)?;
 
-    if !prefix.is_empty() && PROTOCOL_PREFIX.starts_with(prefix) && header.ends_with(prefix) {
+    if !prefix.is_empty() && PROTOCOL_PREFIX.starts_with(prefix) && header == prefix {
         return Err(ParseError::Partial);
     } else if prefix != PROTOCOL_PREFIX {
         return Err(ParseError::InvalidPrefix);
@@ -48,7 +54,7 @@ fn parse_header(header: &str) -> Result<Header, ParseError> {
     let addresses = match iterator.next() {
         Some(TCP4) => {
             let (source_address, destination_address, source_port, destination_port) =
-                parse_addresses::<Ipv4Addr, _>(&mut iterator)?;
+                parse_addresses::<Ipv4Addr, _>(&mut iterator, terminated)?;
 
             Addresses::Tcp4(IPv4 {
                 source_address,
@@ -59,7 +65,7 @@ fn parse_header(header: &str) -> Result<Header, ParseError> {
         }
         Some(TCP6) => {
             let (source_address, destination_address, source_port, destination_port) =
-                parse_addresses::<Ipv6Addr, _>(&mut iterator)?;
+                parse_addresses::<Ipv6Addr, _>(&mut iterator, terminated)?;
 
             Addresses::Tcp6(IPv6 {
                 source_address,
@@ -75,6 +81,8 @@ fn parse_header(header: &str) -> Result<Header, ParseError> {
                     header: Cow::Borrowed(header),
                     addresses: Addresses::Unknown,
                 })
+            } else if terminated {
+                Err(ParseError::InvalidSuffix)
             } else {
                 Err(ParseError::MissingNewLine)
             };
@@ -84,7 +92,8 @@ fn parse_header(header: &str) -> Result<Header, ParseError> {
         }
         Some(protocol)
             if !protocol.is_empty()
-                && header.ends_with(protocol)
+                && !terminated
+                && iterator.peek().is_none()
                 && (TCP4.starts_with(protocol) || UNKNOWN.starts_with(protocol)) =>
         {
             return Err(ParseError::Partial)
@@ -96,7 +105,11 @@ fn parse_header(header: &str) -> Result<Header, ParseError> {
     let newline = iterator
         .next()
         .filter(|s| !s.is_empty())
-        .ok_or(ParseError::MissingNewLine)?;
+        .ok_or(if terminated {
+            ParseError::InvalidSuffix
+        } else {
+            ParseError::MissingNewLine
+        })?;
 
     if newline != NEWLINE || !header.ends_with(PROTOCOL_SUFFIX) {
         return Err(ParseError::InvalidSuffix);
@@ -111,16 +124,28 @@ fn parse_header(header: &str) -> Result<Header, ParseError> {
 /// Parses the addresses and ports from a PROXY protocol header for IPv4 and IPv6.
 fn parse_addresses<'a, T: FromStr<Err = AddrParseError>, I: Iterator<Item = &'a str>>(
     iterator: &mut std::iter::Peekable<I>,
+    terminated: bool,
 ) -> Result<(T, T, u16, u16), ParseError> {
-    let source_address = iterator.next().ok_or(ParseError::MissingSourceAddress)?;
+    // A field can only still arrive while the line has not been terminated; afterwards it is empty.
+    let absent = if terminated { Some("") } else { None };
+
+    let source_address = iterator
+        .next()
+        .or(absent)
+        .ok_or(ParseError::MissingSourceAddress)?;
     let destination_address = iterator
         .next()
+        .or(absent)
         .ok_or(ParseError::MissingDestinationAddress)?;
-    let source_port = iterator.next().ok_or(ParseError::MissingSourcePort)?;
+    let source_port = iterator
+        .next()
+        .or(absent)
+        .ok_or(ParseError::MissingSourcePort)?;
     // An empty last field with nothing after it has not been received yet.
     let destination_port = iterator
         .next()
         .filter(|port| !port.is_empty() || iterator.peek().is_some())
+        .or(absent)
         .ok_or(ParseError::MissingDestinationPort)?;
 
     let source_address = source_address
